@@ -274,48 +274,68 @@ theorem infoMarker_spec {ty : Nat} {m : List Byte} (h : infoMarker ty = some m) 
 theorem serString_length (s : List Byte) : (serString s).length = 4 + (s.length + 1 + (s.length + 1) % 2) := by
   simp [serString]; omega
 
-/-- one item at the front of the list is parsed and the walk continues behind it -/
-theorem parseItems_item (fuel : Nat) (e : Nat × List Byte) (rest : List Byte) (h : infoOk e) :
-    parseItems (fuel + 1) (serItem e ++ rest) = e :: parseItems fuel rest := by
+/-- the padded size of an item's text as the 's' conversion writes it: strlen + 1 rounded up to even -/
+def paddedLen (e : Nat × List Byte) : Nat := e.2.length + 1 + (e.2.length + 1) % 2
+
+theorem serItem_length (e : Nat × List Byte) (h : infoOk e) : (serItem e).length = 8 + paddedLen e := by
   obtain ⟨ty, s⟩ := e
-  obtain ⟨hz, hl, hm⟩ := h
-  simp only at hz hl hm
+  obtain ⟨_, hm⟩ := h
+  obtain ⟨m, hm⟩ := Option.isSome_iff_exists.mp hm
+  obtain ⟨m4, _⟩ := infoMarker_spec hm
+  simp only at hm
+  simp [serItem, hm, serString, m4, paddedLen]; omega
+
+/-- one item at the front of the list, for any text buffer and either rule: parsed when its padded size is below the buffer
+    size, otherwise skipped (current rule) or the end of the walk (old rule) -/
+theorem parseItemsW_front (buf : Nat) (sk : Bool) (fuel : Nat) (e : Nat × List Byte) (rest : List Byte) (h : infoOk e)
+    (h32 : paddedLen e < 2 ^ 32) :
+    parseItemsW buf sk (fuel + 1) (serItem e ++ rest) =
+      if paddedLen e ≥ buf then (if sk then parseItemsW buf sk fuel rest else []) else e :: parseItemsW buf sk fuel rest := by
+  obtain ⟨ty, s⟩ := e
+  obtain ⟨hz, hm⟩ := h
+  simp only [paddedLen] at h32 ⊢
+  simp only at hz hm
   obtain ⟨m, hm⟩ := Option.isSome_iff_exists.mp hm
   obtain ⟨m4, mt, mi, ma⟩ := infoMarker_spec hm
-  have hn : s.length + 1 + (s.length + 1) % 2 < 2 ^ 32 := by omega
   have hev : (s.length + 1 + (s.length + 1) % 2) % 2 = 0 := by omega
   simp only [serItem, hm, serString, List.append_assoc]
-  rw [parseItems]
+  rw [parseItemsW]
   rw [if_neg (by simp [m4])]
-  simp only [take_front _ _ 4 m4, drop_front _ _ 4 m4, take_front _ _ 4 (le4_length _), drop_front _ _ 4 (le4_length _), ofLE_le4 hn, hev,
+  simp only [take_front _ _ 4 m4, drop_front _ _ 4 m4, take_front _ _ 4 (le4_length _), drop_front _ _ 4 (le4_length _), ofLE_le4 h32, hev,
     Nat.add_zero]
   rw [if_neg (by simp [mi, ma])]
   simp only [mt]
-  rw [if_neg (by simp [INFO_BUFFER]; omega)]
   have hsplit : s ++ ([0] ++ (zeros ((s.length + 1) % 2) ++ rest)) = (s ++ ([0] ++ zeros ((s.length + 1) % 2))) ++ rest := by simp
   have hlen : (s ++ ([0] ++ zeros ((s.length + 1) % 2))).length = s.length + 1 + (s.length + 1) % 2 := by simp; omega
+  rw [if_neg (by rw [hsplit, List.length_append, hlen]; omega)]
   simp only [hsplit, take_front _ _ _ hlen, drop_front _ _ _ hlen]
-  congr 1
-  rw [show s ++ ([0] ++ zeros ((s.length + 1) % 2)) = s ++ 0 :: zeros ((s.length + 1) % 2) by simp, cstr_append_zero s _ hz]
+  by_cases hb : buf ≤ s.length + 1 + (s.length + 1) % 2
+  · simp only [ge_iff_le, hb, ↓reduceIte]
+  · simp only [ge_iff_le, hb, ↓reduceIte]
+    congr 1
+    rw [show s ++ ([0] ++ zeros ((s.length + 1) % 2)) = s ++ 0 :: zeros ((s.length + 1) % 2) by simp, cstr_append_zero s _ hz]
 
-theorem parseItems_items (es : List (Nat × List Byte)) (h : ∀ e ∈ es, infoOk e) :
-    ∀ fuel, es.length ≤ fuel → parseItems fuel (es.flatMap serItem) = es := by
+/-- an item below the buffer size is parsed and the walk continues behind it -/
+theorem parseItemsW_item (buf : Nat) (sk : Bool) (fuel : Nat) (e : Nat × List Byte) (rest : List Byte) (h : infoOk e)
+    (hb : paddedLen e < buf) (hbuf : buf ≤ 2 ^ 32) :
+    parseItemsW buf sk (fuel + 1) (serItem e ++ rest) = e :: parseItemsW buf sk fuel rest := by
+  rw [parseItemsW_front buf sk fuel e rest h (by omega), if_neg (by omega)]
+
+theorem parseItemsW_items (buf : Nat) (sk : Bool) (hbuf : buf ≤ 2 ^ 32) (es : List (Nat × List Byte))
+    (h : ∀ e ∈ es, infoOk e ∧ paddedLen e < buf) :
+    ∀ fuel, es.length ≤ fuel → parseItemsW buf sk fuel (es.flatMap serItem) = es := by
   induction es with
-  | nil => intro fuel _; cases fuel <;> simp [parseItems]
+  | nil => intro fuel _; cases fuel <;> simp [parseItemsW]
   | cons e t ih =>
     intro fuel hf
     cases fuel with
     | zero => simp at hf
     | succ f =>
       simp only [List.flatMap_cons]
-      rw [parseItems_item f e _ (h e (by simp)), ih (fun e he => h e (by simp [he])) f (by simpa using hf)]
+      rw [parseItemsW_item buf sk f e _ (h e (by simp)).1 (h e (by simp)).2 hbuf, ih (fun e he => h e (by simp [he])) f (by simpa using hf)]
 
 theorem serItem_length_pos (e : Nat × List Byte) (h : infoOk e) : 1 ≤ (serItem e).length := by
-  obtain ⟨ty, s⟩ := e
-  obtain ⟨_, _, hm⟩ := h
-  obtain ⟨m, hm⟩ := Option.isSome_iff_exists.mp hm
-  simp only at hm
-  simp [serItem, hm, serString]; omega
+  rw [serItem_length e h]; omega
 
 theorem flatMap_serItem_length (es : List (Nat × List Byte)) (h : ∀ e ∈ es, infoOk e) : es.length ≤ (es.flatMap serItem).length := by
   induction es with
@@ -325,11 +345,25 @@ theorem flatMap_serItem_length (es : List (Nat × List Byte)) (h : ∀ e ∈ es,
     have := ih (fun e he => h e (by simp [he]))
     simp only [List.flatMap_cons, List.length_append, List.length_cons]; omega
 
-/-- parse (serialise pairs) = pairs, for all texts under the explicit limit predicate `infoOk` (no NUL, at most 2045
-    bytes, a type RIFF INFO has an id for) and a list that fits its 32-bit size field -/
-theorem info_roundtrip (es : List (Nat × List Byte)) (h : ∀ e ∈ es, infoOk e) (hsize : (infoBody es).length < 2 ^ 32) :
-    parseInfo (serInfo es) = es := by
-  unfold parseInfo serInfo
+/-- every item is at most as long as the whole list -/
+theorem paddedLen_le_flatMap (es : List (Nat × List Byte)) (h : ∀ e ∈ es, infoOk e) :
+    ∀ e ∈ es, 8 + paddedLen e ≤ (es.flatMap serItem).length := by
+  induction es with
+  | nil => intro e he; cases he
+  | cons x t ih =>
+    intro e he
+    simp only [List.flatMap_cons, List.length_append]
+    rcases List.mem_cons.mp he with rfl | he
+    · rw [serItem_length e (h e (by simp))]; omega
+    · have := ih (fun e he => h e (by simp [he])) e he; omega
+
+/-- the walk of a whole LIST chunk as the writer lays it out, for any items parser that reads what `parseItemsW buf sk`
+    reads with a buffer every item is smaller than -/
+theorem parseInfoWith_roundtrip (buf : Nat) (sk : Bool) (hbuf : buf ≤ 2 ^ 32) (es : List (Nat × List Byte))
+    (h : ∀ e ∈ es, infoOk e ∧ paddedLen e < buf) (hsize : (infoBody es).length < 2 ^ 32) :
+    parseInfoWith (fun fuel body => parseItemsW buf sk fuel body) (serInfo es) = es := by
+  have h' : ∀ e ∈ es, infoOk e := fun e he => (h e he).1
+  unfold parseInfoWith serInfo
   simp only [List.append_assoc]
   have e4 : (mk "LIST").length = 4 := by decide
   have i4 : (mk "INFO").length = 4 := by decide
@@ -338,66 +372,104 @@ theorem info_roundtrip (es : List (Nat × List Byte)) (h : ∀ e ∈ es, infoOk 
   cases es with
   | nil => simp [infoBody, i4]
   | cons e t =>
-    have hpos := flatMap_serItem_length (e :: t) h
+    have hpos := flatMap_serItem_length (e :: t) h'
     have hbl : (infoBody (e :: t)).length = 4 + ((e :: t).flatMap serItem).length := by simp [infoBody, i4]
     have h10 : 10 ≤ (serItem e).length := by
-      obtain ⟨ty, s⟩ := e
-      obtain ⟨_, _, hm⟩ := h (ty, s) (by simp)
-      obtain ⟨m, hm⟩ := Option.isSome_iff_exists.mp hm
-      obtain ⟨m4, _⟩ := infoMarker_spec hm
-      simp only at hm
-      simp [serItem, hm, serString, m4]; omega
+      rw [serItem_length e (h' e (by simp))]; unfold paddedLen; omega
     rw [if_neg (by rw [hbl]; simp only [List.flatMap_cons, List.length_append]; omega)]
     rw [hbl]
     unfold infoBody
-    rw [show 4 + ((e :: t).flatMap serItem).length = (((e :: t).flatMap serItem).length + 3) + 1 by omega, parseItems]
+    rw [show 4 + ((e :: t).flatMap serItem).length = (((e :: t).flatMap serItem).length + 3) + 1 by omega, parseItemsW]
     rw [if_neg (by simp [i4])]
     simp only [take_front _ _ 4 i4, drop_front _ _ 4 i4]
     rw [if_pos (Or.inl trivial)]
-    exact parseItems_items (e :: t) h _ (by omega)
+    exact parseItemsW_items buf sk hbuf (e :: t) h _ (by omega)
 
-theorem serItem_length_le (e : Nat × List Byte) (h : infoOk e) : (serItem e).length ≤ 2056 := by
-  obtain ⟨ty, s⟩ := e
-  obtain ⟨_, hl, hm⟩ := h
-  obtain ⟨m, hm⟩ := Option.isSome_iff_exists.mp hm
-  obtain ⟨m4, _⟩ := infoMarker_spec hm
-  simp only at hm hl
-  simp [serItem, hm, serString, m4]; omega
-
-theorem flatMap_serItem_length_le (es : List (Nat × List Byte)) (h : ∀ e ∈ es, infoOk e) : (es.flatMap serItem).length ≤ 2056 * es.length := by
-  induction es with
-  | nil => simp
-  | cons e t ih =>
-    have := serItem_length_le e (h e (by simp))
-    have := ih (fun e he => h e (by simp [he]))
-    simp only [List.flatMap_cons, List.length_append, List.length_cons]; omega
-
-/-- `info_roundtrip` for what a string table can hold: at most 32 entries — the 32-bit size field then always fits -/
-theorem info_roundtrip_table (es : List (Nat × List Byte)) (h : ∀ e ∈ es, infoOk e) (h32 : es.length ≤ 32) :
+/-- `info_roundtrip` (full strength since the repairs of the reader): parse (serialise pairs) = pairs for every list of C
+    strings of types RIFF INFO has an id for whose LIST chunk the header cache can hold (`HEADER_CAP` = 100 KiB: the writer
+    cannot produce more either) — whatever the length of the single texts -/
+theorem info_roundtrip (es : List (Nat × List Byte)) (h : ∀ e ∈ es, infoOk e) (hsize : (infoBody es).length ≤ HEADER_CAP) :
     parseInfo (serInfo es) = es := by
-  apply info_roundtrip es h
-  have := flatMap_serItem_length_le es h
+  have hs32 : (infoBody es).length < 2 ^ 32 := by unfold HEADER_CAP at hsize; omega
   have i4 : (mk "INFO").length = 4 := by decide
-  simp only [infoBody, List.length_append, i4]
-  omega
+  have hbl : (infoBody es).length = 4 + (es.flatMap serItem).length := by simp [infoBody, i4]
+  have hbuf : infoBufSize (infoBody es).length = max (infoBody es).length 2047 + 1 := by
+    unfold infoBufSize; rw [Nat.min_eq_left hsize]
+  have key := parseInfoWith_roundtrip (infoBufSize (infoBody es).length) true
+    (by rw [hbuf]; unfold HEADER_CAP at hsize; omega) es
+    (fun e he => ⟨h e he, by have := paddedLen_le_flatMap es h e he; rw [hbuf]; omega⟩) hs32
+  -- the buffer the parser computes is the one of `key`: the body it sees is `infoBody es`
+  have hbody : parseInfo (serInfo es) = parseInfoWith (fun fuel body => parseItemsW (infoBufSize (infoBody es).length) true fuel body) (serInfo es) := by
+    unfold parseInfo parseInfoWith serInfo parseItems
+    simp only [List.append_assoc]
+    have e4 : (mk "LIST").length = 4 := by decide
+    rw [drop_front_add (mk "LIST") _ 4 0 e4, drop_front_add (mk "LIST") _ 4 4 e4]
+    simp only [List.drop_zero, take_front _ _ 4 (le4_length _), drop_front _ _ 4 (le4_length _), ofLE_le4 hs32, List.take_length]
+  rw [hbody]; exact key
+
+/-- `info_roundtrip` for what a string table can hold (at most 32 entries), in terms of the texts: the sum of the padded
+    lengths plus 8 bytes per item plus the 4 of `INFO` within the header cache -/
+theorem info_roundtrip_table (es : List (Nat × List Byte)) (h : ∀ e ∈ es, infoOk e)
+    (hsum : 4 + (es.map fun e => 8 + paddedLen e).sum ≤ HEADER_CAP) : parseInfo (serInfo es) = es := by
+  apply info_roundtrip es h
+  have i4 : (mk "INFO").length = 4 := by decide
+  have : (es.flatMap serItem).length = (es.map fun e => 8 + paddedLen e).sum := by
+    clear hsum
+    induction es with
+    | nil => simp
+    | cons e t ih =>
+      simp only [List.flatMap_cons, List.length_append, List.map_cons, List.sum_cons]
+      rw [serItem_length e (h e (by simp)), ih (fun e he => h e (by simp [he]))]
+  simp only [infoBody, List.length_append, i4, this]
+  exact hsum
 
 example : parseInfo (serInfo [(1, ascii "Title"), (3, ascii "me (libsndfile-1.2.2)"), (16, ascii "x")]) =
     [(1, ascii "Title"), (3, ascii "me (libsndfile-1.2.2)"), (16, ascii "x")] := by decide +kernel
 
-/-- the full statement: no length limit is documented for strings -/
-def info_full : Prop := ∀ es : List (Nat × List Byte), (∀ e ∈ es, (∀ b ∈ e.2, b ≠ 0) ∧ (infoMarker e.1).isSome) → es.length ≤ 32 →
-  (∀ e ∈ es, e.2.length ≤ 4096) → parseInfo (serInfo es) = es
+/-- the full statement: no length limit is documented for strings; the container's limit is what its header can hold -/
+def info_full_for (parse : List Byte → List (Nat × List Byte)) : Prop :=
+  ∀ es : List (Nat × List Byte), (∀ e ∈ es, (∀ b ∈ e.2, b ≠ 0) ∧ (infoMarker e.1).isSome) → es.length ≤ 32 →
+  (infoBody es).length ≤ HEADER_CAP → parse (serInfo es) = es
 
-/-- a text of 2046 bytes (2047 with its NUL, padded to 2048 = sizeof buffer): the item is refused and every item
-    behind it is dropped with it -/
-theorem info_limit_witness : ¬ info_full := by
+/-- full strength for the repaired reader -/
+theorem info_full : info_full_for parseInfo := fun es h _ hsize => info_roundtrip es h hsize
+
+/-- a text of 2046 bytes and the item behind it now both come back -/
+example : parseInfo (serInfo [(1, List.replicate 2046 65), (4, [66])]) = [(1, List.replicate 2046 65), (4, [66])] := by decide +kernel
+
+/-- the reader before the repairs: a text of 2046 bytes (2047 with its NUL, padded to 2048 = sizeof buffer) was refused and
+    every item behind it was dropped with it -/
+theorem info_limit_old_rule : ¬ info_full_for parseInfoOld := by
   intro h
   have := h [(1, List.replicate 2046 65), (4, [66])] (by decide +kernel) (by decide) (by decide +kernel)
   revert this
   decide +kernel
 
-/-- … and 2045 bytes still pass -/
-example : parseInfo (serInfo [(1, List.replicate 2045 65), (4, [66])]) = [(1, List.replicate 2045 65), (4, [66])] := by decide +kernel
+theorem info_later_items_dropped_old_rule :
+    parseInfoOld (serInfo [(5, [67]), (1, List.replicate 2046 65), (4, [66])]) = [(5, [67])] := by decide +kernel
+
+/-- … and 2045 bytes passed: the old reader's round trip under its limit predicate `infoOkOld` -/
+theorem info_roundtrip_short_items_old_rule (es : List (Nat × List Byte)) (h : ∀ e ∈ es, infoOkOld e) (hsize : (infoBody es).length < 2 ^ 32) :
+    parseInfoOld (serInfo es) = es :=
+  parseInfoWith_roundtrip INFO_BUFFER false (by decide) es
+    (fun e he => ⟨(h e he).1, by have := (h e he).2; unfold paddedLen INFO_BUFFER; omega⟩) hsize
+
+example : parseInfoOld (serInfo [(1, List.replicate 2045 65), (4, [66])]) = [(1, List.replicate 2045 65), (4, [66])] := by decide +kernel
+
+/-- repair (a): an item that is too long for the text buffer (it can only come from another writer: more than 100 KiB) is
+    skipped and the walk goes on with the next item … -/
+theorem info_long_item_skipped (buf fuel : Nat) (e : Nat × List Byte) (rest : List Byte) (h : infoOk e) (h32 : paddedLen e < 2 ^ 32)
+    (hlong : buf ≤ paddedLen e) : parseItemsW buf true (fuel + 1) (serItem e ++ rest) = parseItemsW buf true fuel rest := by
+  rw [parseItemsW_front buf true fuel e rest h h32, if_pos hlong]; rfl
+
+/-- … where the old rule ended the walk: every later item was lost -/
+theorem info_long_item_ends_walk_old_rule (buf fuel : Nat) (e : Nat × List Byte) (rest : List Byte) (h : infoOk e) (h32 : paddedLen e < 2 ^ 32)
+    (hlong : buf ≤ paddedLen e) : parseItemsW buf false (fuel + 1) (serItem e ++ rest) = [] := by
+  rw [parseItemsW_front buf false fuel e rest h h32, if_pos hlong]; rfl
+
+/-- non-vacuity of the two: a small buffer makes the case concrete -/
+example : parseItemsW 8 true 9 (serItem (1, ascii "too long a title") ++ serItem (4, ascii "me")) = [(4, ascii "me")] ∧
+    parseItemsW 8 false 9 (serItem (1, ascii "too long a title") ++ serItem (4, ascii "me")) = [] := by decide +kernel
 
 /-! ## instrument (`smpl`) -/
 
